@@ -142,6 +142,8 @@ pub struct Obs {
     pub la: String,
     /// number of network callbacks made by background threads of this call
     pub lb: usize,
+    /// directory entries outside the storage directory in use that this call changed (measured for repeated inits)
+    pub outside: usize,
 }
 
 pub fn render_obs(o: &Obs) -> String {
@@ -183,14 +185,15 @@ pub fn render_obs(o: &Obs) -> String {
         ),
     };
     format!(
-        "ret={} net={} {} {} {} la={} lb={}",
+        "ret={} net={} {} {} {} la={} lb={} out={}",
         o.ret,
         join_with(",", &o.net.iter().map(render_net).collect::<Vec<_>>()),
         sj,
         pj,
         pd,
         if o.la.is_empty() { "~" } else { &o.la },
-        o.lb
+        o.lb,
+        o.outside
     )
 }
 
@@ -252,6 +255,9 @@ pub enum Damage {
     /// an earlier, well-formed state.json whose event timestamps are set far into the future (a clock that went
     /// backwards, or a hand-edited file): invisible to the model, which abstracts timestamps away
     SjFuture(usize),
+    /// the current state.json with the queued events of an earlier version appended (a hand-merged file): the only way
+    /// to a queue of more than three events, which no sequence of calls can build
+    SjMerge(usize),
     Nop,
 }
 
@@ -350,6 +356,7 @@ pub fn render_op(op: &Op, stream: Option<&[u8]>) -> String {
             Damage::SjGarbage(_) => "dmg sj-garbage".into(),
             Damage::SjStale(k) => format!("dmg sj-stale {}", k),
             Damage::SjFuture(k) => format!("dmg sj-stale {} t", k),
+            Damage::SjMerge(k) => format!("dmg sj-stale {} m", k),
             Damage::Nop => "dmg nop".into(),
         },
     }
@@ -519,6 +526,7 @@ pub fn parse_op(line: &str, recompress: &dyn Fn(&[u8]) -> Vec<u8>) -> Option<Op>
         ["dmg", "sj-garbage"] => Some(Op::Dmg(Damage::SjGarbage(1))),
         ["dmg", "sj-stale", k] => Some(Op::Dmg(Damage::SjStale(k.parse().ok()?))),
         ["dmg", "sj-stale", k, "t"] => Some(Op::Dmg(Damage::SjFuture(k.parse().ok()?))),
+        ["dmg", "sj-stale", k, "m"] => Some(Op::Dmg(Damage::SjMerge(k.parse().ok()?))),
         ["dmg", "nop"] => Some(Op::Dmg(Damage::Nop)),
         _ => None,
     }
